@@ -147,6 +147,22 @@ def rm(d):
     shutil.rmtree(d, ignore_errors=True)
 
 
+def panic_site(rec):
+    """'file:line|task=..|message' -> 'file:<message class>' (no line numbers: they shift with every
+    edit of the file; ids and numbers are stripped from the message)."""
+    import re
+    parts = str(rec).split("|")
+    loc = parts[0].replace("/repo/", "")
+    loc = re.sub(r"/root/\.cargo/registry/src/[^/]+/", "~cargo/", loc)
+    f = re.sub(r":\d+(:\d+)?$", "", loc)
+    msg = parts[-1] if len(parts) > 1 else ""
+    msg = re.split(r"[\n]", msg)[0]
+    msg = re.sub(r"\$?\d+(\.\d+)?(\(\d+\))?", "", msg)
+    msg = re.sub(r"\"[^\"]*\"?", "", msg.replace("`", ""))   # drop quoted payloads (values, plans)
+    slug = re.sub(r"[^a-z]+", "-", msg.lower()).strip("-")[:56].strip("-")
+    return f"{f}:{slug}" if slug else f
+
+
 def rows_of(resp, stmt=-1):
     """All rows (lists of typed cells) of statement `stmt` of a successful sql response."""
     out = []
